@@ -2,7 +2,8 @@
    route_status is computed from the tables regenerated from /repo (routing table, version windows of
    every handler overload); doc_status from the documented surface (/verif/spec/surface.json). *)
 From Coq Require Import ZArith List Bool.
-From PV Require Import Gen.GenConsts Gen.GenSurfaceSpec Spec.Surface Proofs.C14 Spec.Fields Proofs.C14f.
+From PV Require Import Gen.GenConsts Gen.GenSurfaceSpec Spec.Surface Proofs.C14 Spec.Fields Proofs.C14f Spec.RespFields
+  Proofs.C14r.
 Import ListNotations.
 Open Scope Z_scope.
 
@@ -47,3 +48,54 @@ Print Assumptions C14_fields.
 Theorem C14_field_versions : forall n lo v, In v (versions_from n lo) <-> lo <= v < lo + Z.of_nat n.
 Proof. exact versions_from_spec. Qed.
 Print Assumptions C14_field_versions.
+
+(* response members.  resp_members route method v (Spec/RespFields.v) = the members the code's serialisers emit for a
+   successful request of the operation at minor version v: (0, path, name) a body member (path from the body root; None = any
+   key of a map keyed by data, Some "[]" = a list element), (1, [], name) a response header among last-modified /
+   cache-control / location / openstack-api-version / vary, (2, [], code) a status code.  It is hand-written from
+   placement/handlers/*.py and compared with the running service on every run of the check, operation by operation and
+   version by version (harness/respfields.py).  doc_resp_fields = spec/surface.json:response_fields, transcribed from the
+   API reference; route 19 = the error document.
+
+   For every documented response member and every minor version at which its operation exists: the member is emitted
+   exactly from the version that introduces it on and below the version that removes it (removed = -1: never removed). *)
+Theorem C14_response_fields : forall route method loc path name intro removed v,
+  In (route, method, loc, path, name, intro, removed) doc_resp_fields ->
+  resp_op_intro route method <= v <= doc_max_version ->
+  (In (loc, path, name) (resp_members route method v) <-> intro <= v /\ (removed < 0 \/ v < removed)).
+Proof.
+  intros route method loc path name intro removed v Hd Hv. apply c14_response_fields; [exact Hd|].
+  apply resp_versions_spec. exact Hv.
+Qed.
+Print Assumptions C14_response_fields.
+
+(* conversely: at every version, every member the code emits for an operation (resp_ops: every documented operation and the
+   error document) is documented for that operation at that version - or is one of the listed disagreements
+   (resp_known_extra: last-modified / cache-control on the body-less answer of PUT /traits/{name} from 1.15) *)
+Theorem C14_no_undocumented_response_member : forall route method v x,
+  In (route, method) resp_ops -> resp_op_intro route method <= v <= doc_max_version ->
+  In x (resp_members route method v) ->
+  (exists intro removed, In (route, method, fst (fst x), snd (fst x), snd x, intro, removed) doc_resp_fields /\
+                         intro <= v /\ (removed < 0 \/ v < removed)) \/
+  (exists from, In (route, method, x, from) resp_known_extra /\ from <= v).
+Proof.
+  intros route method v x Hop Hv Hx. apply c14_no_undocumented; [exact Hop | | exact Hx].
+  apply resp_versions_spec. exact Hv.
+Qed.
+Print Assumptions C14_no_undocumented_response_member.
+
+(* each listed disagreement is a real one: the member is emitted exactly from the stated version on and no entry of the
+   documented table gives it to the operation at any version *)
+Theorem C14_response_disagreements_are_real : forall route method x from v,
+  In (route, method, x, from) resp_known_extra -> resp_op_intro route method <= v <= doc_max_version ->
+  (In x (resp_members route method v) <-> from <= v) /\ documented_at route method v x = false.
+Proof.
+  intros route method x from v He Hv. apply c14_extras_real; [exact He|]. apply resp_versions_spec. exact Hv.
+Qed.
+Print Assumptions C14_response_disagreements_are_real.
+
+(* the table the harness reads (resp_table: per operation the members of any version once + a 0/1 mask per version) decodes
+   to resp_members, as sets *)
+Theorem C14_response_table_faithful : resp_table_faithful = true.
+Proof. exact resp_table_faithful_true. Qed.
+Print Assumptions C14_response_table_faithful.
